@@ -300,7 +300,7 @@ def universe(init):
     return VS, LS
 
 
-def rand_op(rng, ref, vs, ls, p_invalid=0.0):
+def rand_op(rng, ref, vs, ls, p_invalid=0.0, fresh=True):
     """one mostly-valid operation for the current reference state"""
     for _ in range(50):
         k = rng.choice(["addv", "adde", "adde", "adde", "addel", "addel", "delv", "delvs", "recurrent", "rename", "copy"])
@@ -320,7 +320,7 @@ def rand_op(rng, ref, vs, ls, p_invalid=0.0):
         elif k == "rename":
             perm = ls[:]
             rng.shuffle(perm)
-            tgt = perm if rng.random() < 0.6 else [l.upper() + "x" for l in ls]
+            tgt = perm if (rng.random() < 0.6 or not fresh) else [l.upper() + "x" for l in ls]
             op = {"k": k, "m": [[a, b] for a, b in zip(ls, tgt)]}
         else:
             op = {"k": k}
@@ -331,13 +331,13 @@ def rand_op(rng, ref, vs, ls, p_invalid=0.0):
     return {"k": "copy"}, True
 
 
-def rand_history(rng, maxlen=40, p_invalid=0.0):
+def rand_history(rng, maxlen=40, p_invalid=0.0, fresh=True):
     init = rand_init(rng)
     vs, ls = universe(init)
     _, ref = build(init)
     ops = []
     for _ in range(rng.randint(1, maxlen)):
-        op, ok = rand_op(rng, ref, vs, ls, p_invalid)
+        op, ok = rand_op(rng, ref, vs, ls, p_invalid, fresh)
         ops.append(op)
         if not ok:
             break
